@@ -15,6 +15,8 @@ from argparse import (
     ArgumentTypeError,
     HelpFormatter,
 )
+import collections.abc
+import types
 import typing
 from ast import literal_eval
 from inspect import Parameter, getmembers, isfunction, signature
@@ -488,14 +490,31 @@ def _get_type_from_annotation(annotation: Any) -> Callable[[Any], Any]:
     `Iterable`- or args/kwargs-type annotations use `ast.literal_eval`.
     Others pass unchanged (but still wrapped with `_get_arg_type_wrapper`).
     """
-    if any(annotation is t for t in (AnyCoroutineFunc, EndCB, CancelCB)):
+    if typing.get_origin(annotation) in _UNION_TYPES:
+        # An optional parameter is converted like its non-optional version.
+        not_none = [
+            arg for arg in typing.get_args(annotation) if arg is not type(None)
+        ]
+        if len(not_none) == 1:
+            annotation = not_none[0]
+    origin = typing.get_origin(annotation)
+    if origin is collections.abc.Callable or any(
+        annotation is t for t in (AnyCoroutineFunc, EndCB, CancelCB)
+    ):
         annotation = resolve_dotted_path
-    if any(
-        annotation is t
-        for t in (ArgsT, KwArgsT, Iterable[ArgsT], Iterable[KwArgsT])
+    elif (
+        origin in (collections.abc.Iterable, collections.abc.Mapping)
+        or type(annotation).__name__ in ("ParamSpecArgs", "ParamSpecKwargs")
+        or any(
+            annotation is t
+            for t in (ArgsT, KwArgsT, Iterable[ArgsT], Iterable[KwArgsT])
+        )
     ):
         annotation = literal_eval
     return _get_arg_type_wrapper(annotation)
+
+
+_UNION_TYPES = (typing.Union, getattr(types, "UnionType", None))
 
 
 # ruff: noqa: A003 (Class attribute {} is shadowing a Python builtin)
